@@ -947,8 +947,35 @@ func iohelpStreamWidths(c *core.Ctx, p *load.Prog, rule string) {
 			}
 		}
 		early := false
+		// a return before the read is a way out with the announced bytes still
+		// on the stream — unless it is the shortcut for a count of zero, which
+		// announces none
+		zeroShortcut := map[*ast.ReturnStmt]bool{}
 		ast.Inspect(f.fd.Body, func(nd ast.Node) bool {
-			if r, ok := nd.(*ast.ReturnStmt); ok && r.Pos() < readPos {
+			ifs, ok := nd.(*ast.IfStmt)
+			if !ok || ifs.Init != nil || ifs.Else != nil || len(ifs.Body.List) != 1 {
+				return true
+			}
+			be, ok := ast.Unparen(ifs.Cond).(*ast.BinaryExpr)
+			if !ok || be.Op != token.EQL {
+				return true
+			}
+			if k, isC := constInt(f.info, be.Y); !isC || k != 0 {
+				return true
+			}
+			// the operand is the count: a variable whose value is ReadUint32(r), possibly converted
+			if !f.resolvesToCall(be.X, "ReadUint32") {
+				if id, isId := ast.Unparen(be.X).(*ast.Ident); !isId || !f.resolvesToCall(id, "ReadUint32") {
+					return true
+				}
+			}
+			if r, isR := ifs.Body.List[0].(*ast.ReturnStmt); isR {
+				zeroShortcut[r] = true
+			}
+			return true
+		})
+		ast.Inspect(f.fd.Body, func(nd ast.Node) bool {
+			if r, ok := nd.(*ast.ReturnStmt); ok && r.Pos() < readPos && !zeroShortcut[r] {
 				early = true
 			}
 			return true
@@ -993,73 +1020,282 @@ func iohelpCheckedStrings(c *core.Ctx, p *load.Prog, rule string) {
 		if f == nil {
 			continue
 		}
-		// the guards live where the slice is taken: in the function itself or in
-		// the helper it hands its buffer to
-		top := f
-		for _, g := range f.closure() {
-			has := false
-			ast.Inspect(g.fd.Body, func(n ast.Node) bool {
-				if se, ok := n.(*ast.SliceExpr); ok && g.canonBuf(se.X) == "buf" && se.Low != nil {
-					has = true
+		checkedString(c, p, rule, f)
+	}
+	c.Count("checked_string_readers", 2)
+}
+
+// strFact is a linear fact  L*len(buf) + S*int(sz) + C >= 0  about the byte
+// slice parameter and the u32 length read from its first four bytes.
+type strFact struct {
+	L, S, C int
+	wide    bool // every sum/difference in it was computed in a 64-bit integer
+}
+
+// checkedString decides, for one checked string reader, by facts instead of
+// by the spelling of the guards: on the way to the read of the u32 length
+// `len(buf) >= 4` is known, and on the way to every slice of buf whose bounds
+// involve that length `len(buf) >= int(sz)+4` is known, computed in
+// arithmetic that cannot wrap. Facts come from guards that return
+// (`if len(buf) < 4 { return … }`, also with ||) and from helpers that
+// report the outcome of their own tests in a boolean result
+// (`sz, ok := stringExtent(buf); if !ok { return … }`).
+func checkedString(c *core.Ctx, p *load.Prog, rule string, top *ioFn) {
+	name := top.name
+	// linear form of an integer expression over len(<[]byte>) and <uint32 value>
+	var lin func(g *ioFn, e ast.Expr) (strFact, bool)
+	lin = func(g *ioFn, e ast.Expr) (strFact, bool) {
+		e = ast.Unparen(e)
+		if k, ok := constInt(g.info, e); ok {
+			return strFact{C: k, wide: true}, true
+		}
+		switch x := e.(type) {
+		case *ast.CallExpr:
+			if wire.Canon(x.Fun) == "len" && len(x.Args) == 1 {
+				if t := g.info.TypeOf(x.Args[0]); t != nil && t.String() == "[]byte" {
+					return strFact{L: 1, wide: true}, true
 				}
-				return true
-			})
-			if has {
-				f = g
-				break
+			}
+			if tv, ok := g.info.Types[x.Fun]; ok && tv.IsType() && len(x.Args) == 1 {
+				inner, ok := lin(g, x.Args[0])
+				if !ok {
+					return strFact{}, false
+				}
+				// a conversion to a narrower type makes what is inside it wrap
+				if sizeofType(p, tv.Type) < 8 && (inner.L != 0 || inner.C != 0) {
+					inner.wide = false
+				}
+				return inner, true
+			}
+		case *ast.Ident:
+			if t := g.info.TypeOf(x); t != nil {
+				if b, ok := t.Underlying().(*types.Basic); ok && b.Kind() == types.Uint32 {
+					return strFact{S: 1, wide: true}, true
+				}
+			}
+		case *ast.BinaryExpr:
+			if x.Op == token.ADD || x.Op == token.SUB {
+				a, ok1 := lin(g, x.X)
+				b, ok2 := lin(g, x.Y)
+				if !ok1 || !ok2 {
+					return strFact{}, false
+				}
+				sign := 1
+				if x.Op == token.SUB {
+					sign = -1
+				}
+				out := strFact{L: a.L + sign*b.L, S: a.S + sign*b.S, C: a.C + sign*b.C, wide: a.wide && b.wide}
+				if t := g.info.TypeOf(x); t != nil && sizeofType(p, t) < 8 {
+					out.wide = false
+				}
+				if t := g.info.TypeOf(x); t != nil {
+					if b, ok := t.Underlying().(*types.Basic); ok && b.Info()&types.IsUnsigned != 0 && (out.S != 0) {
+						// an unsigned sum with the length in it wraps at its width
+						if sizeofType(p, t) < 8 {
+							out.wide = false
+						}
+					}
+				}
+				return out, true
 			}
 		}
-		_ = top
-		// straight-line guards: `if cond { return ... }` at top level
-		var guards []ast.Expr
-		sliceSeen := false
-		okLen4, okLenSz := false, false
-		wide := true
-		for _, s := range f.fd.Body.List {
-			if ifs, ok := s.(*ast.IfStmt); ok && ifs.Else == nil && ifs.Init == nil && endsInReturn(ifs.Body) {
-				guards = append(guards, ifs.Cond)
-				continue
+		return strFact{}, false
+	}
+	// facts known when cond has the given truth value
+	var factsOf func(g *ioFn, cond ast.Expr, truth bool) []strFact
+	factsOf = func(g *ioFn, cond ast.Expr, truth bool) []strFact {
+		cond = ast.Unparen(cond)
+		switch x := cond.(type) {
+		case *ast.UnaryExpr:
+			if x.Op == token.NOT {
+				return factsOf(g, x.X, !truth)
 			}
-			ast.Inspect(s, func(n ast.Node) bool {
-				se, ok := n.(*ast.SliceExpr)
-				if !ok || f.canon(se.X) != "buf" {
-					return true
+		case *ast.BinaryExpr:
+			switch x.Op {
+			case token.LOR:
+				if !truth {
+					return append(factsOf(g, x.X, false), factsOf(g, x.Y, false)...)
 				}
-				sliceSeen = true
-				for _, g := range guards {
-					b, ok := ast.Unparen(g).(*ast.BinaryExpr)
-					if !ok || b.Op != token.LSS || f.canon(b.X) != "len(buf)" {
-						continue
+				return nil
+			case token.LAND:
+				if truth {
+					return append(factsOf(g, x.X, true), factsOf(g, x.Y, true)...)
+				}
+				return nil
+			case token.LSS, token.LEQ, token.GTR, token.GEQ:
+				a, ok1 := lin(g, x.X)
+				b, ok2 := lin(g, x.Y)
+				if !ok1 || !ok2 {
+					return nil
+				}
+				op := x.Op
+				if !truth {
+					op = map[token.Token]token.Token{token.LSS: token.GEQ, token.LEQ: token.GTR, token.GTR: token.LEQ, token.GEQ: token.LSS}[op]
+				}
+				// bring to  lhs - rhs (>= 0 | > 0)  with lhs the larger side
+				hi, lo := a, b
+				strict := false
+				switch op {
+				case token.LSS:
+					hi, lo, strict = b, a, true
+				case token.LEQ:
+					hi, lo = b, a
+				case token.GTR:
+					strict = true
+				}
+				f := strFact{L: hi.L - lo.L, S: hi.S - lo.S, C: hi.C - lo.C, wide: a.wide && b.wide}
+				if strict {
+					f.C-- // integers: x > 0  <=>  x - 1 >= 0
+				}
+				// the comparison itself must be made in 64 bits
+				if t := g.info.TypeOf(x.X); t != nil && sizeofType(p, t) < 8 {
+					f.wide = false
+				}
+				return []strFact{f}
+			}
+		}
+		return nil
+	}
+	// facts a helper establishes when its boolean result is true
+	helperFacts := func(g *ioFn, call *ast.CallExpr) []strFact {
+		cal := load.Callee(g.info, call)
+		if cal == nil || cal.Pkg() != p.Iohelp().Types {
+			return nil
+		}
+		fd := p.Decl(cal)
+		if fd == nil || fd.Body == nil {
+			return nil
+		}
+		h := &ioFn{p: p, info: g.info, fd: fd, name: load.FuncName(cal)}
+		var facts []strFact
+		for _, st := range fd.Body.List {
+			switch x := st.(type) {
+			case *ast.IfStmt:
+				// if cond { return …, false }
+				if x.Else == nil && endsInReturn(x.Body) {
+					r := x.Body.List[len(x.Body.List)-1].(*ast.ReturnStmt)
+					if len(r.Results) > 0 && wire.Canon(r.Results[len(r.Results)-1]) == "false" {
+						facts = append(facts, factsOf(h, x.Cond, false)...)
 					}
-					rhs := f.canon(b.Y)
-					if rhs == "4" {
-						okLen4 = true
+				}
+			case *ast.ReturnStmt:
+				if len(x.Results) > 0 {
+					last := x.Results[len(x.Results)-1]
+					if wire.Canon(last) != "true" && wire.Canon(last) != "false" {
+						facts = append(facts, factsOf(h, last, true)...)
 					}
-					if rhs == "int(sz) + 4" || rhs == "4 + int(sz)" || rhs == "int64(sz) + 4" {
-						okLenSz = true
-						if t := f.info.TypeOf(b.Y); t != nil && sizeofType(p, t) < 8 {
-							wide = false
+				}
+			}
+		}
+		return facts
+	}
+	implied := func(facts []strFact, L, S, C int) (bool, bool) {
+		for _, f := range facts {
+			// f: L*len + S*sz + C' >= 0 with the same coefficients and C' <= C
+			// means len - … >= -C' >= -C
+			if f.L == L && f.S == S && f.C <= C {
+				return true, f.wide
+			}
+		}
+		return false, false
+	}
+	// walk a function's top-level statements, accumulating facts; visit every
+	// u32 length read and every slice of the buffer
+	nReads, nSlices := 0, 0
+	okRead, okSlice, wideSlice := true, true, true
+	badIdx := ""
+	var walk func(g *ioFn, facts []strFact, depth int)
+	walk = func(g *ioFn, facts []strFact, depth int) {
+		okVars := map[types.Object][]strFact{}
+		for _, st := range g.fd.Body.List {
+			// the sites in this statement are judged with the facts so far
+			ast.Inspect(st, func(n ast.Node) bool {
+				switch x := n.(type) {
+				case *ast.CallExpr:
+					if wire.Canon(x.Fun) == "ReadUint32Bytes" && len(x.Args) == 1 {
+						if t := g.info.TypeOf(x.Args[0]); t != nil && t.String() == "[]byte" {
+							nReads++
+							if ok, _ := implied(facts, 1, 0, -4); !ok {
+								okRead = false
+							}
+						}
+					}
+					// a helper handed the buffer: its own sites, with what is known here
+					if cal := load.Callee(g.info, x); cal != nil && cal.Pkg() == p.Iohelp().Types && !cal.Exported() && depth < 2 {
+						if fd := p.Decl(cal); fd != nil && fd.Body != nil {
+							for _, a := range x.Args {
+								if t := g.info.TypeOf(a); t != nil && t.String() == "[]byte" {
+									walk(&ioFn{p: p, info: g.info, fd: fd, name: load.FuncName(cal)}, facts, depth+1)
+									break
+								}
+							}
+						}
+					}
+				case *ast.SliceExpr:
+					if t := g.info.TypeOf(x.X); t == nil || t.String() != "[]byte" {
+						return true
+					}
+					// a slice whose bounds involve the length read
+					hi, okh := strFact{}, false
+					if x.High != nil {
+						hi, okh = lin(g, x.High)
+					}
+					if okh && hi.S != 0 {
+						nSlices++
+						ok, wide := implied(facts, 1, -1, -4)
+						if !ok {
+							okSlice = false
+						}
+						if !wide {
+							wideSlice = false
+						}
+					}
+				case *ast.IndexExpr:
+					if t := g.info.TypeOf(x.X); t != nil && t.String() == "[]byte" {
+						if k, isC := constInt(g.info, x.Index); !isC || k >= 4 {
+							badIdx = wire.Canon(x)
 						}
 					}
 				}
 				return true
 			})
-		}
-		badIdx := ""
-		ast.Inspect(f.fd.Body, func(n ast.Node) bool {
-			if ix, ok := n.(*ast.IndexExpr); ok && f.canon(ix.X) == "buf" {
-				if k, ok := constInt(f.info, ix.Index); !ok || k >= 4 {
-					badIdx = f.canon(ix)
+			// then the statement's own contribution to what is known after it
+			switch x := st.(type) {
+			case *ast.IfStmt:
+				if x.Else == nil && x.Init == nil && endsInReturn(x.Body) {
+					facts = append(facts, factsOf(g, x.Cond, false)...)
+					// if !ok { return } with ok a helper's verdict
+					cond := ast.Unparen(x.Cond)
+					if u, isU := cond.(*ast.UnaryExpr); isU && u.Op == token.NOT {
+						if id, isId := ast.Unparen(u.X).(*ast.Ident); isId {
+							facts = append(facts, okVars[g.info.ObjectOf(id)]...)
+						}
+					}
+				}
+			case *ast.AssignStmt:
+				if len(x.Rhs) == 1 && len(x.Lhs) >= 2 {
+					if call, isC := x.Rhs[0].(*ast.CallExpr); isC {
+						if id, isId := x.Lhs[len(x.Lhs)-1].(*ast.Ident); isId {
+							if b, isB := g.info.TypeOf(id).Underlying().(*types.Basic); isB && b.Kind() == types.Bool {
+								okVars[g.info.ObjectOf(id)] = helperFacts(g, call)
+							}
+						}
+					}
 				}
 			}
-			return true
-		})
-		c.Check(rule, name+" indexes buf only inside the guarded prefix", f.pos(), badIdx == "", "the expression "+badIdx+" indexes buf at a position the length guards do not cover when the string is empty and ends the buffer")
-		c.Check(rule, name+" slices buf only after len(buf) >= 4", f.pos(), sliceSeen && okLen4, "the u32 length read and the slice must be dominated by the false edge of len(buf) < 4")
-		c.Check(rule, name+" slices buf only after len(buf) >= int(sz)+4 in 64-bit arithmetic", f.pos(), sliceSeen && okLenSz && wide,
-			"the slice buf[4:4+sz] must be dominated by the false edge of len(buf) < int(sz)+4 computed in an integer type that cannot wrap (a uint32 sum wraps for sz >= 2^32-4)")
+		}
 	}
-	c.Count("checked_string_readers", 2)
+	walk(top, nil, 0)
+	c.Check(rule, name+" indexes buf only inside the guarded prefix", top.pos(), badIdx == "", "the expression "+badIdx+" indexes buf at a position the length guards do not cover when the string is empty and ends the buffer")
+	if nReads == 0 || nSlices == 0 {
+		if badIdx == "" {
+			c.Undecide("iohelp.%s: the read of the u32 length (%d found) or the slice bounded by it (%d found) was not recognised", name, nReads, nSlices)
+		}
+		return
+	}
+	c.Check(rule, name+" slices buf only after len(buf) >= 4", top.pos(), okRead, "the u32 length is read from buf on a path where len(buf) >= 4 is not established (by a guard that returns, or by a helper's verdict that is tested)")
+	c.Check(rule, name+" slices buf only after len(buf) >= int(sz)+4 in 64-bit arithmetic", top.pos(), okSlice && wideSlice,
+		fmt.Sprintf("the slice of buf bounded by the length read is reached without len(buf) >= int(sz)+4 being established (established: %v) in an integer type that cannot wrap (64-bit throughout: %v; a uint32 sum wraps for sz >= 2^32-4)", okSlice, wideSlice))
 }
 
 func endsInReturn(b *ast.BlockStmt) bool {
@@ -1337,10 +1573,22 @@ func iohelpDrain(c *core.Ctx, p *load.Prog, rule string, latch bool) {
 	})
 	guarded, filtersEOF := false, false
 	ast.Inspect(f.fd.Body, func(n ast.Node) bool {
-		ifs, ok := n.(*ast.IfStmt)
-		if !ok {
+		// a guarded store: `if COND { er.Err = … }` or `case COND: er.Err = …`
+		// of a tagless switch
+		var condExpr ast.Expr
+		var bodyStmts []ast.Stmt
+		switch x := n.(type) {
+		case *ast.IfStmt:
+			condExpr, bodyStmts = x.Cond, x.Body.List
+		case *ast.CaseClause:
+			if len(x.List) == 1 {
+				condExpr, bodyStmts = x.List[0], x.Body
+			}
+		}
+		if condExpr == nil {
 			return true
 		}
+		ifs := &ast.IfStmt{Cond: condExpr, Body: &ast.BlockStmt{List: bodyStmts}}
 		stores := false
 		for _, st := range ifs.Body.List {
 			if as, ok := st.(*ast.AssignStmt); ok {
@@ -1381,7 +1629,9 @@ func iohelpDrain(c *core.Ctx, p *load.Prog, rule string, latch bool) {
 	})
 	c.Check(rule, "Drain latches a premature end of the bounded region", f.pos(), shortRegion && storesErr && guarded,
 		"no store into er.Err is conditioned on the limiter's remaining count (or on the number of bytes skipped): a stream that ends inside the declared body length is reported as success")
-	c.Check(rule, "Drain does not exempt io.EOF from the error it latches", f.pos(), !filtersEOF,
+	// ending the read loop on io.EOF is how a bounded region ends; that is only
+	// an exemption when nothing else reports a region that ended early
+	c.Check(rule, "Drain does not exempt io.EOF from the error it latches", f.pos(), !filtersEOF || (shortRegion && guarded),
 		"the store into er.Err is skipped when the error is io.EOF: inside a length-limited region an EOF from the source means the record is truncated")
 }
 
